@@ -5,6 +5,7 @@ out=seeded/RESULTS-final.txt
 : > $out
 for d in $(ls -d seeded/s* | sort -t s -k2 -n); do
   id=$(basename $d)
+  if grep -q '"retired"' $d/meta.json; then echo "$id retired (see meta.json)" >> $out; continue; fi
   prop=$(python3 -c "import json;m=json.load(open('$d/meta.json'));db=m.get('detected_by') or {};print(db.get('check',m['property']).split(',')[0].strip())")
   r=$(WALL=${WALL:-14} tools/try_mutant.sh /verif/$d/patch.diff $prop 2>&1 | tail -1)
   echo "$id $r" | cut -c1-300 >> $out
